@@ -1,0 +1,38 @@
+//go:build verif
+
+// Contracts for property C08 (initial-covering slice): addInitialRange appends exactly one covering cell,
+// keeps the earlier ones and covers both ends of the range it is given, provided the two ends lie on one
+// cube face (its documented precondition). initCovering itself (loop over top-level cells: every index cell
+// ends up inside some covering cell) did not discharge within any practical solver budget (sorted-disjoint
+// index + Hilbert range arithmetic + forall-exists coverage); it is checked by the BOUNDED stand-in under
+// /verif/bounded/C08 instead, labelled bounded and not counted as proved. The search itself (queue order,
+// distance bounds, result bookkeeping) is floating point and is not decided. Comment-only; build tag verif.
+
+package s2
+
+//@ property C08
+
+// index cell k lies inside some cell of the initial covering (CellID.Contains spelled out: range of leaf ids)
+//@ spec func vcCovered(e *EdgeQuery, k int) bool = exists j int :: 0 <= j && j < len(e.indexCovering) && vcInside(e.index.cells[k], e.indexCovering[j])
+//@ spec func vcInside(c, big CellID) bool = vcLo(big) <= uint64(c) && uint64(c) <= vcHi(big)
+
+//@ func (s *ShapeIndexIterator) CellID() CellID
+//@   inline
+//@   requires s != nil
+//@   ensures result == s.id
+
+//@ func (s *ShapeIndexIterator) IndexCell() *ShapeIndexCell
+//@   inline
+//@   requires s != nil
+//@   ensures result == s.cell
+
+// addInitialRange appends one covering cell that contains the first and the last cell of the range; "requires that
+// first and last cells have a common ancestor" (its doc comment) means: they are on the same face
+//@ func (e *EdgeQuery) addInitialRange(first, last *ShapeIndexIterator)
+//@   requires e != nil && e.index != nil && vcIdx(e.index) && vcIterAt(first) && vcIterAt(last) && first.index == e.index && last.index == e.index
+//@   requires first.position <= last.position && last.position < len(e.index.cells)
+//@   requires [same-face] uint64(first.id)>>61 == uint64(last.id)>>61
+//@   modifies e.indexCovering, e.indexCells
+//@   ensures [appended] len(e.indexCovering) == old(len(e.indexCovering))+1
+//@   ensures [kept] forall j int :: 0 <= j && j < old(len(e.indexCovering)) ==> e.indexCovering[j] == old(e.indexCovering)[j]
+//@   ensures [covers-ends] vcInside(first.id, e.indexCovering[len(e.indexCovering)-1]) && vcInside(last.id, e.indexCovering[len(e.indexCovering)-1])
